@@ -7,12 +7,15 @@ import Qats.Driver.Dist
 import Qats.Driver.Rebin
 import Qats.Driver.Peaks
 import Qats.Driver.Pipeline
+import Qats.Driver.Names
 import Qats.Driver.Dtg
+import Qats.Driver.Welch
+import Qats.Driver.Filter
 /-! All line-protocol handlers (core Lean only; imported by `Driver.lean`). -/
 namespace Qats.Driver
 
 def handlers : List (List String → Option String) :=
-  [Rainflow.handle, FindReversals.handle, Qats.Gen.handleGen, SN.handle, Motion.handle, Dist.handle, Rebin.handle, Peaks.handle, Pipeline.handle, Dtg.handle]
+  [Rainflow.handle, FindReversals.handle, Qats.Gen.handleGen, SN.handle, Motion.handle, Dist.handle, Rebin.handle, Peaks.handle, Pipeline.handle, Names.handle, Dtg.handle, Welch.handle, Filter.handle]
 
 def dispatch (toks : List String) : String :=
   match handlers.findSome? (fun h => h toks) with
